@@ -14,6 +14,7 @@ import (
 	"fmt"
 	"os"
 	"os/exec"
+	"os/signal"
 	"strconv"
 	"syscall"
 	"time"
@@ -34,6 +35,9 @@ type setValuesSpec struct {
 	Suffix  string   `json:"suffix"`
 	Exclude []string `json:"exclude"`
 	Set     []SetKV  `json:"set"`
+	// FileLimit > 0: the process may not write a file beyond this many bytes (RLIMIT_FSIZE, SIGXFSZ ignored): the write of
+	// the new content fails with EFBIG part of the way, like a full disk or an exhausted quota
+	FileLimit int `json:"file_limit,omitempty"`
 }
 
 func helperMain(role string) int {
@@ -64,8 +68,19 @@ func helperMain(role string) int {
 		for _, kv := range sp.Set {
 			arg[kv.K] = kv.V
 		}
+		if sp.FileLimit > 0 {
+			signal.Ignore(syscall.SIGXFSZ)
+			lim := syscall.Rlimit{Cur: uint64(sp.FileLimit), Max: uint64(sp.FileLimit)}
+			if err := syscall.Setrlimit(syscall.RLIMIT_FSIZE, &lim); err != nil {
+				fmt.Println("helper: cannot set the file size limit:", err)
+				return 5
+			}
+		}
 		fmt.Println("C18HELPER-BEGIN")
-		fc.SetValues(&arg)
+		func() {
+			defer func() { recover() }() // a write that reports its failure by panicking is as good as one that returns
+			fc.SetValues(&arg)
+		}()
 		fmt.Println("C18HELPER-END")
 		return 0
 	case "conc":
